@@ -55,6 +55,21 @@ def main():
             m = json.load(open(sm))
             out.append("* **Seeded change:** %s" % str(m.get("summary", ""))[:400])
         out.append("")
+    # seeded changes
+    res = json.load(open(os.path.join(ROOT, "seeded", "RESULTS.json")))
+    out += ["## Appendix H — seeded property-breaking changes and what reports them (generated)", "",
+            "Each change was written by a fresh sub-agent that saw only the property text and its own scratch worktree "
+            "(second-round changes, suffix `-b`, were additionally told which function the first change touched), "
+            "confirmed by the coordinator (demo exits 1 with the patch and 0 without; the existing suite is unchanged), "
+            "and run against the checks with `tools/mut_test.sh <seed> <check>`.", "",
+            "| seed | change | first result | now |", "|---|---|---|---|"]
+    for sid in sorted(k for k in res if not k.startswith("_")):
+        mp = os.path.join(ROOT, "seeded", sid, "meta.json")
+        summ = ""
+        if os.path.exists(mp):
+            summ = " ".join(str(json.load(open(mp)).get("summary", "")).split())[:260].replace("|", "/")
+        out.append("| %s | %s | %s | %s |" % (sid, summ, res[sid]["first"], res[sid]["now"]))
+    out.append("")
     out.append(E)
     p = os.path.join(ROOT, "DESIGN.md")
     s = open(p).read()
